@@ -47,10 +47,13 @@ def _audit_hook(event, args):
     if not isinstance(path, str):
         return
     root = _audit['root']
-    try:
-        full = os.path.normpath(os.path.join(os.getcwd(), path))
-    except OSError:
-        return
+    if os.path.isabs(path):
+        full = os.path.normpath(path)
+    else:
+        try:
+            full = os.path.normpath(os.path.join(os.getcwd(), path))
+        except OSError:
+            return           # (the working directory no longer exists)
     if full == root or full.startswith(root + os.sep):
         tmp = root + os.sep + 'tmp'
         if full == tmp or full.startswith(tmp + os.sep):
